@@ -237,6 +237,9 @@ func apiprog() {
 		o := randOpts(rng)
 		g := NewGen(rng.Int63(), o.PageSize)
 		ops := g.History(4+rng.Intn(12), true, true)
+		if pi%5 == 4 {
+			ops = g.CursorProgram()
+		}
 		ops = append(ops, Op{K: "beginr", Tx: "rfinal"}, Op{K: "dump", Tx: "rfinal"}, Op{K: "endr", Tx: "rfinal"})
 		res := runAPI(dir, fmt.Sprintf("p%d", pi), o, ops, true)
 		checkAPIResult(rep, o, res)
@@ -283,6 +286,15 @@ func checkAPIResult(rep *Report, o optSet, res *apiResult) {
 			sig := fmt.Sprintf("api:%s:impl=%s:spec=%s", ops[i].K, resClass(impl[i]), resClass(spec[i]))
 			if h := primaryHazard(hz); h != "" {
 				sig += ":" + h
+			}
+			if prop == "C05" {
+				// did this cursor run off the end (Next returned nil) earlier?
+				for j := 0; j < i; j++ {
+					if ops[j].K == "cnext" && ops[j].Cur == ops[i].Cur && impl[j] == "kv:nil" {
+						sig += ":after-next-off-end"
+						break
+					}
+				}
 			}
 			rep.violation(prop, "monitor", sig,
 				fmt.Sprintf("op %d `%s`: bbolt returns %q, the nested-map reference model returns %q [%s]", i, truncate(ops[i].Line(), 80), truncate(impl[i], 60), truncate(spec[i], 60), o),
